@@ -841,7 +841,7 @@ Proof.
   replace (N.to_nat (len its)) with (List.length pre + S (List.length post))%nat
     by (unfold len, its; rewrite app_length; cbn [List.length]; lia).
   rewrite Hflat, (items_loop_prefix pre vs _ _ _ HF).
-  rewrite items_loop_reject by assumption. reflexivity.
+  unfold bad. rewrite items_loop_reject by assumption. reflexivity.
 Qed.
 
 (* 0x0801: the block sits at bytes 8..36 *)
